@@ -266,11 +266,13 @@ type callResult struct {
 	pan   *panicInfo
 	alloc uint64
 	cpu   int64
+	wall  int64 // microseconds; diagnostics of the harness only, never an oracle input
 }
 
 func runOne(t *target, in []byte) (res callResult) {
 	a0 := heapAllocs()
 	c0 := cpuMicros()
+	w0 := time.Now()
 	func() {
 		defer func() {
 			if p := recover(); p != nil {
@@ -285,6 +287,7 @@ func runOne(t *target, in []byte) (res callResult) {
 	}
 	res.cpu = cpuMicros() - c0
 	res.alloc = heapAllocs() - a0
+	res.wall = time.Since(w0).Microseconds()
 	return
 }
 
@@ -341,7 +344,7 @@ func Child(args []string) int {
 	if !raceEnabled {
 		// address-space limit = what the process maps now + head-room: allocations far beyond the allocation
 		// bound fail at once (fatal "out of memory", diagnosed by the parent) instead of being touched page by page
-		head := uint64(256 << 20)
+		head := uint64(384 << 20)
 		if s := os.Getenv("VERIF_C14_AS_HEADROOM_MB"); s != "" {
 			if v, err := strconv.ParseUint(s, 10, 64); err == nil {
 				head = v << 20
@@ -407,6 +410,8 @@ func Child(args []string) int {
 			line = append(line, ' ')
 			line = strconv.AppendInt(line, res.cpu, 10)
 			line = append(line, ' ')
+			line = strconv.AppendInt(line, res.wall, 10)
+			line = append(line, ' ')
 			line = append(line, base64.StdEncoding.EncodeToString(j)...)
 		case res.err != nil:
 			line = append(line, " e "...)
@@ -414,12 +419,16 @@ func Child(args []string) int {
 			line = append(line, ' ')
 			line = strconv.AppendInt(line, res.cpu, 10)
 			line = append(line, ' ')
+			line = strconv.AppendInt(line, res.wall, 10)
+			line = append(line, ' ')
 			line = append(line, errClass(res.err)...)
 		default:
 			line = append(line, " o "...)
 			line = strconv.AppendUint(line, res.alloc, 10)
 			line = append(line, ' ')
 			line = strconv.AppendInt(line, res.cpu, 10)
+			line = append(line, ' ')
+			line = strconv.AppendInt(line, res.wall, 10)
 			line = append(line, " -"...)
 		}
 		line = append(line, '\n')
